@@ -10,21 +10,28 @@
 //!
 //! Families
 //!   corpus           fixed witnesses of past disagreements, first in every family
-//!   pairs / triples  every (parent position, child kind) and (…, grandchild kind) of the operator
-//!                    skeleton, rendered by `Ref.print full|minimal`, and the minimal rendering
-//!                    with each needed pair of parentheses removed (pairs completely in both
-//!                    tiers, triples completely in the thorough tier)
-//!   random           random skeleton trees to depth 5 (quick) / 8 (thorough)
+//!   pairs / triples  every (parent position, child kind) and (…, grandchild kind) over the 48 node
+//!                    kinds of `Dmn.Ref.Tree` — the operator skeleton and if / for (list and range
+//!                    domains, one and two contexts) / some / every / function definitions / list
+//!                    and context literals / intervals in four spellings / unary tests / `in (…)` /
+//!                    named parameters, each nested in each operand position of each other —
+//!                    rendered by `Ref.print full|minimal`, and every member of `Ref.drops minimal`
+//!                    (the minimal rendering with one needed pair of parentheses, at any depth,
+//!                    removed); pairs completely in both tiers, triples completely in the
+//!                    thorough tier
+//!   random           random trees of the same language to depth 5 (quick) / 8 (thorough)
 //!   layout           token-preserving layouts of the same renderings (white space of all
 //!                    kinds, `//` and `/* */` comments), in strata: clean / two comments in a
-//!                    row / comment right after a keyword / literal glued to `(`
+//!                    row / comment right after a keyword / literal glued to `(` / comment between
+//!                    the variable of for|some|every and `in` (F32) / comment between `function`
+//!                    and `(` (F33)
 //!   gap              white space and 0-3 comments before a token: lexer vs `skipGap`
 //!   escape           every escape form (both digit cases) over boundary code points and a
 //!                    stratified sample; simple escapes; malformed escapes
-//!   extended         if/for/some/every/function/list/context/range/unary tests/named
-//!                    parameters/`in (…)`/generic types: print∘parse round trip on the real
-//!                    parser with the harness' own printer (which is itself compared with
-//!                    `Ref.print` on every skeleton case)
+//!   extended         what is still outside `Dmn.Ref.Tree` (typed parameters, external bodies,
+//!                    generic types, unary-tests start symbols) mixed with everything else:
+//!                    print∘parse round trip on the real parser with the harness' own printer
+//!                    (which is itself compared with `Ref.print` on every tree case)
 //!
 //! ImplVsSpec  = parse(print_full t) ≠ t, parse(print_minimal t) ≠ t, a needed pair removed and
 //!               still the same tree, a layout changes the tree, an escape does not denote c.
@@ -57,6 +64,8 @@ const SIG_SURROGATE: &str = "surrogate pair escape does not denote its code poin
 const SIG_TWO_COMMENTS: &str = "layout changes the tree: two comments in a row between tokens";
 const SIG_KEYWORD_COMMENT: &str = "layout changes the tree: comment directly after a keyword";
 const SIG_LITERAL_PAREN: &str = "layout changes the tree: true/false/null directly followed by (";
+const SIG_VAR_COMMENT: &str = "layout changes the tree: comment between the variable of for/some/every and `in`";
+const SIG_FUNCTION_COMMENT: &str = "layout changes the tree: comment between `function` and (";
 
 // ------------------------------------------------------------------------------------------
 // alphabet
@@ -149,6 +158,141 @@ pub enum T {
   Path(Box<T>, usize),
   Filter(Box<T>, Box<T>),
   Call(Box<T>, Vec<T>),
+  /// `f(n: v, …)`, at least one
+  CallNamed(Box<T>, Vec<(usize, T)>),
+  /// `e in (a, b, …)`, at least two
+  InList(Box<T>, Vec<T>),
+  If(Box<T>, Box<T>, Box<T>),
+  /// iteration contexts (at least one) and the body
+  For(Vec<Iter>, Box<T>),
+  /// every?, quantified contexts (at least one), body
+  Quant(bool, Vec<(usize, T)>, Box<T>),
+  Fn(Vec<usize>, Box<T>),
+  List(Vec<T>),
+  Ctx(Vec<(Key, T)>),
+  Range(Bra, End, End, Bra),
+  UTest(Cmp, End),
+}
+
+#[derive(Clone, Debug, PartialEq)]
+pub enum Iter {
+  Single(usize, T),
+  Range(usize, T, T),
+}
+
+#[derive(Clone, Copy, Debug, PartialEq)]
+pub enum Key {
+  Name(usize),
+  Str(usize),
+}
+
+#[derive(Clone, Debug, PartialEq)]
+pub enum End {
+  Qn(Vec<usize>),
+  Num(usize),
+  Lit(usize),
+}
+
+#[derive(Clone, Copy, Debug, PartialEq)]
+pub enum Bra {
+  Round,
+  Rev,
+  Square,
+}
+
+#[derive(Clone, Copy, Debug, PartialEq)]
+pub enum Cmp {
+  Lt,
+  Le,
+  Gt,
+  Ge,
+}
+
+impl Bra {
+  fn name(self) -> &'static str {
+    match self {
+      Bra::Round => "round",
+      Bra::Rev => "rev",
+      Bra::Square => "square",
+    }
+  }
+  fn of_name(s: &str) -> Option<Bra> {
+    [Bra::Round, Bra::Rev, Bra::Square].into_iter().find(|b| b.name() == s)
+  }
+}
+
+impl Cmp {
+  fn name(self) -> &'static str {
+    match self {
+      Cmp::Lt => "lt",
+      Cmp::Le => "le",
+      Cmp::Gt => "gt",
+      Cmp::Ge => "ge",
+    }
+  }
+  fn of_name(s: &str) -> Option<Cmp> {
+    [Cmp::Lt, Cmp::Le, Cmp::Gt, Cmp::Ge].into_iter().find(|b| b.name() == s)
+  }
+}
+
+impl End {
+  fn sexp(&self) -> Sexp {
+    match self {
+      End::Qn(qs) => Sexp::tagged("q", qs.iter().map(|n| Sexp::int(*n)).collect()),
+      End::Num(n) => Sexp::tagged("u", vec![Sexp::int(*n)]),
+      End::Lit(n) => Sexp::tagged("l", vec![Sexp::int(*n)]),
+    }
+  }
+  fn of_sexp(s: &Sexp) -> Option<End> {
+    let l = s.as_list()?;
+    let nat = |x: &Sexp| x.as_atom().and_then(|a| a.parse::<usize>().ok());
+    Some(match l.first()?.as_atom()? {
+      "q" if l.len() >= 2 => End::Qn(l[1..].iter().map(nat).collect::<Option<Vec<_>>>()?),
+      "u" if l.len() == 2 => End::Num(nat(&l[1])?),
+      "l" if l.len() == 2 => End::Lit(nat(&l[1])?),
+      _ => return None,
+    })
+  }
+  /// `endpoint`: a qualified name or a simple literal (parser.rs:1105-1125, 935-975)
+  fn ast(&self) -> AstNode {
+    match self {
+      End::Qn(qs) => AstNode::QualifiedName(qs.iter().map(|n| AstNode::QualifiedNameSegment(Name::from(NAMES[*n]))).collect()),
+      End::Num(n) => AstNode::Numeric(n.to_string(), String::new()),
+      End::Lit(k) => lit_ast(*k),
+    }
+  }
+}
+
+fn key_sexp(k: Key) -> Sexp {
+  match k {
+    Key::Name(n) => Sexp::tagged("k", vec![Sexp::atom("n"), Sexp::int(n)]),
+    Key::Str(n) => Sexp::tagged("k", vec![Sexp::atom("s"), Sexp::int(n)]),
+  }
+}
+
+fn key_of_sexp(s: &Sexp) -> Option<Key> {
+  let l = s.as_list()?;
+  if l.len() != 3 || l[0].as_atom()? != "k" {
+    return None;
+  }
+  let n: usize = l[2].as_atom()?.parse().ok()?;
+  match l[1].as_atom()? {
+    "n" => Some(Key::Name(n)),
+    "s" => Some(Key::Str(n)),
+    _ => None,
+  }
+}
+
+fn bind_sexp(b: &(usize, T)) -> Sexp {
+  Sexp::tagged("b", vec![Sexp::int(b.0), b.1.sexp()])
+}
+
+fn bind_of_sexp(s: &Sexp) -> Option<(usize, T)> {
+  let l = s.as_list()?;
+  if l.len() != 3 || l[0].as_atom()? != "b" {
+    return None;
+  }
+  Some((l[1].as_atom()?.parse().ok()?, T::of_sexp(&l[2])?))
 }
 
 impl T {
@@ -172,6 +316,39 @@ impl T {
         v.extend(args.iter().map(|a| a.sexp()));
         Sexp::tagged("call", v)
       }
+      T::CallNamed(f, bs) => {
+        let mut v = vec![f.sexp()];
+        v.extend(bs.iter().map(bind_sexp));
+        Sexp::tagged("calln", v)
+      }
+      T::InList(e, items) => {
+        let mut v = vec![e.sexp()];
+        v.extend(items.iter().map(|a| a.sexp()));
+        Sexp::tagged("inl", v)
+      }
+      T::If(c, a, b) => Sexp::tagged("if", vec![c.sexp(), a.sexp(), b.sexp()]),
+      T::For(its, body) => {
+        let mut v: Vec<Sexp> = its
+          .iter()
+          .map(|i| match i {
+            Iter::Single(x, d) => Sexp::tagged("s", vec![Sexp::int(*x), d.sexp()]),
+            Iter::Range(x, lo, hi) => Sexp::tagged("r", vec![Sexp::int(*x), lo.sexp(), hi.sexp()]),
+          })
+          .collect();
+        v.push(body.sexp());
+        Sexp::tagged("for", v)
+      }
+      T::Quant(ev, qs, body) => {
+        let mut v = vec![Sexp::atom(if *ev { "every" } else { "some" })];
+        v.extend(qs.iter().map(bind_sexp));
+        v.push(body.sexp());
+        Sexp::tagged("quant", v)
+      }
+      T::Fn(ps, body) => Sexp::tagged("fn", vec![Sexp::tagged("p", ps.iter().map(|n| Sexp::int(*n)).collect()), body.sexp()]),
+      T::List(items) => Sexp::tagged("list", items.iter().map(|a| a.sexp()).collect()),
+      T::Ctx(es) => Sexp::tagged("ctx", es.iter().map(|(k, v)| Sexp::tagged("e", vec![key_sexp(*k), v.sexp()])).collect()),
+      T::Range(b1, lo, hi, b2) => Sexp::tagged("range", vec![Sexp::atom(b1.name()), lo.sexp(), hi.sexp(), Sexp::atom(b2.name())]),
+      T::UTest(c, e) => Sexp::tagged("ut", vec![Sexp::atom(c.name()), e.sexp()]),
     }
   }
   pub fn of_sexp(s: &Sexp) -> Option<T> {
@@ -207,6 +384,47 @@ impl T {
         }
         T::Call(Box::new(T::of_sexp(&l[1])?), args)
       }
+      ("calln", n) if n >= 3 => T::CallNamed(Box::new(T::of_sexp(&l[1])?), l[2..].iter().map(bind_of_sexp).collect::<Option<Vec<_>>>()?),
+      ("inl", n) if n >= 4 => T::InList(Box::new(T::of_sexp(&l[1])?), l[2..].iter().map(T::of_sexp).collect::<Option<Vec<_>>>()?),
+      ("if", 4) => T::If(Box::new(T::of_sexp(&l[1])?), Box::new(T::of_sexp(&l[2])?), Box::new(T::of_sexp(&l[3])?)),
+      ("for", n) if n >= 3 => {
+        let mut its = vec![];
+        for x in &l[1..n - 1] {
+          let xl = x.as_list()?;
+          its.push(match (xl.first()?.as_atom()?, xl.len()) {
+            ("s", 3) => Iter::Single(nat(&xl[1])?, T::of_sexp(&xl[2])?),
+            ("r", 4) => Iter::Range(nat(&xl[1])?, T::of_sexp(&xl[2])?, T::of_sexp(&xl[3])?),
+            _ => return None,
+          });
+        }
+        T::For(its, Box::new(T::of_sexp(&l[n - 1])?))
+      }
+      ("quant", n) if n >= 4 => {
+        let ev = match l[1].as_atom()? {
+          "every" => true,
+          "some" => false,
+          _ => return None,
+        };
+        T::Quant(ev, l[2..n - 1].iter().map(bind_of_sexp).collect::<Option<Vec<_>>>()?, Box::new(T::of_sexp(&l[n - 1])?))
+      }
+      ("fn", 3) => {
+        let pl = l[1].as_list()?;
+        T::Fn(pl[1..].iter().map(nat).collect::<Option<Vec<_>>>()?, Box::new(T::of_sexp(&l[2])?))
+      }
+      ("list", _) => T::List(l[1..].iter().map(T::of_sexp).collect::<Option<Vec<_>>>()?),
+      ("ctx", _) => {
+        let mut es = vec![];
+        for x in &l[1..] {
+          let xl = x.as_list()?;
+          if xl.len() != 3 || xl[0].as_atom()? != "e" {
+            return None;
+          }
+          es.push((key_of_sexp(&xl[1])?, T::of_sexp(&xl[2])?));
+        }
+        T::Ctx(es)
+      }
+      ("range", 5) => T::Range(Bra::of_name(l[1].as_atom()?)?, End::of_sexp(&l[2])?, End::of_sexp(&l[3])?, Bra::of_name(l[4].as_atom()?)?),
+      ("ut", 3) => T::UTest(Cmp::of_name(l[1].as_atom()?)?, End::of_sexp(&l[2])?),
       _ => return None,
     })
   }
@@ -246,40 +464,119 @@ impl T {
       T::Path(e, n) => AstNode::Path(b(e), Box::new(name_ast(*n))),
       T::Filter(e, i) => AstNode::Filter(b(e), b(i)),
       T::Call(f, args) => AstNode::FunctionInvocation(b(f), Box::new(AstNode::PositionalParameters(args.iter().map(|a| a.ast()).collect()))),
+      // parser.rs:983-1007
+      T::CallNamed(f, bs) => AstNode::FunctionInvocation(
+        b(f),
+        Box::new(AstNode::NamedParameters(bs.iter().map(|(n, v)| AstNode::NamedParameter(Box::new(AstNode::ParameterName(Name::from(NAMES[*n]))), b(v))).collect())),
+      ),
+      // parser.rs:388, 577-590
+      T::InList(e, items) => AstNode::In(b(e), Box::new(AstNode::ExpressionList(items.iter().map(|a| a.ast()).collect()))),
+      T::If(c, x, y) => AstNode::If(b(c), b(x), b(y)),
+      // parser.rs:604-616, 846-900
+      T::For(its, body) => AstNode::For(
+        Box::new(AstNode::IterationContexts(
+          its
+            .iter()
+            .map(|i| match i {
+              Iter::Single(x, d) => AstNode::IterationContextSingle(Box::new(name_ast(*x)), b(d)),
+              Iter::Range(x, lo, hi) => AstNode::IterationContextRange(Box::new(name_ast(*x)), b(lo), b(hi)),
+            })
+            .collect(),
+        )),
+        Box::new(AstNode::EvaluatedExpression(b(body))),
+      ),
+      T::Quant(ev, qs, body) => {
+        let ctxs = Box::new(AstNode::QuantifiedContexts(qs.iter().map(|(x, d)| AstNode::QuantifiedContext(Box::new(name_ast(*x)), b(d))).collect()));
+        let sat = Box::new(AstNode::Satisfies(b(body)));
+        if *ev {
+          AstNode::Every(ctxs, sat)
+        } else {
+          AstNode::Some(ctxs, sat)
+        }
+      }
+      T::Fn(ps, body) => AstNode::FunctionDefinition(
+        Box::new(AstNode::FormalParameters(
+          ps.iter().map(|p| AstNode::FormalParameter(Box::new(AstNode::ParameterName(Name::from(NAMES[*p]))), Box::new(AstNode::FeelType(FeelType::Any)))).collect(),
+        )),
+        Box::new(AstNode::FunctionBody(b(body), false)),
+      ),
+      T::List(items) => AstNode::List(items.iter().map(|a| a.ast()).collect()),
+      T::Ctx(es) => AstNode::Context(
+        es.iter()
+          .map(|(k, v)| {
+            let key = match k {
+              Key::Name(n) => Name::from(NAMES[*n]),
+              Key::Str(n) => Name::from(LITS[*n].trim_matches('"')),
+            };
+            AstNode::ContextEntry(Box::new(AstNode::ContextEntryKey(key)), b(v))
+          })
+          .collect(),
+      ),
+      T::Range(b1, lo, hi, b2) => AstNode::Range(Box::new(AstNode::IntervalStart(Box::new(lo.ast()), *b1 == Bra::Square)), Box::new(AstNode::IntervalEnd(Box::new(hi.ast()), *b2 == Bra::Square))),
+      T::UTest(c, e) => {
+        let e = Box::new(e.ast());
+        match c {
+          Cmp::Lt => AstNode::UnaryLt(e),
+          Cmp::Le => AstNode::UnaryLe(e),
+          Cmp::Gt => AstNode::UnaryGt(e),
+          Cmp::Ge => AstNode::UnaryGe(e),
+        }
+      }
+    }
+  }
+  /// The direct sub-trees.
+  fn kids(&self) -> Vec<&T> {
+    match self {
+      T::Name(_) | T::Num(_) | T::Lit(_) | T::Range(..) | T::UTest(..) => vec![],
+      T::Bin(_, l, r) | T::Filter(l, r) => vec![l, r],
+      T::Neg(e) | T::Inst(e, _, _) | T::Path(e, _) => vec![e],
+      T::Between(e, lo, hi) | T::If(e, lo, hi) => vec![e, lo, hi],
+      T::Call(f, args) | T::InList(f, args) => std::iter::once(&**f).chain(args.iter()).collect(),
+      T::CallNamed(f, bs) => std::iter::once(&**f).chain(bs.iter().map(|(_, v)| v)).collect(),
+      T::For(its, body) => {
+        let mut v: Vec<&T> = vec![];
+        for i in its {
+          match i {
+            Iter::Single(_, d) => v.push(d),
+            Iter::Range(_, lo, hi) => {
+              v.push(lo);
+              v.push(hi);
+            }
+          }
+        }
+        v.push(body);
+        v
+      }
+      T::Quant(_, qs, body) => qs.iter().map(|(_, d)| d).chain(std::iter::once(&**body)).collect(),
+      T::Fn(_, body) => vec![body],
+      T::List(items) => items.iter().collect(),
+      T::Ctx(es) => es.iter().map(|(_, v)| v).collect(),
     }
   }
   fn depth(&self) -> usize {
+    let ks = self.kids();
     match self {
       T::Name(_) | T::Num(_) | T::Lit(_) => 0,
-      T::Bin(_, l, r) => 1 + l.depth().max(r.depth()),
-      T::Neg(e) | T::Inst(e, _, _) | T::Path(e, _) => 1 + e.depth(),
-      T::Between(e, lo, hi) => 1 + e.depth().max(lo.depth()).max(hi.depth()),
-      T::Filter(e, i) => 1 + e.depth().max(i.depth()),
-      T::Call(f, args) => 1 + args.iter().map(|a| a.depth()).fold(f.depth(), usize::max),
+      _ => 1 + ks.iter().map(|k| k.depth()).max().unwrap_or(0),
     }
   }
   /// Does the rendering of this tree contain `and` or `between` (in any mode, at any depth)?
   fn has_and_or_between(&self) -> bool {
-    match self {
-      T::Name(_) | T::Num(_) | T::Lit(_) => false,
-      T::Bin(o, l, r) => *o == Op::And || l.has_and_or_between() || r.has_and_or_between(),
-      T::Neg(e) | T::Inst(e, _, _) | T::Path(e, _) => e.has_and_or_between(),
-      T::Between(..) => true,
-      T::Filter(e, i) => e.has_and_or_between() || i.has_and_or_between(),
-      T::Call(f, args) => f.has_and_or_between() || args.iter().any(|a| a.has_and_or_between()),
-    }
+    matches!(self, T::Bin(Op::And, _, _) | T::Between(..)) || self.kids().iter().any(|k| k.has_and_or_between())
   }
   /// Some `between` below has `and`/`between` in its middle operand: the lexer's single
   /// `between` flag (lexer.rs:276-284) then hands the wrong `and` to the grammar.
   fn between_unsafe(&self) -> bool {
-    match self {
-      T::Name(_) | T::Num(_) | T::Lit(_) => false,
-      T::Bin(_, l, r) => l.between_unsafe() || r.between_unsafe(),
-      T::Neg(e) | T::Inst(e, _, _) | T::Path(e, _) => e.between_unsafe(),
-      T::Between(e, lo, hi) => lo.has_and_or_between() || e.between_unsafe() || lo.between_unsafe() || hi.between_unsafe(),
-      T::Filter(e, i) => e.between_unsafe() || i.between_unsafe(),
-      T::Call(f, args) => f.between_unsafe() || args.iter().any(|a| a.between_unsafe()),
+    if let T::Between(_, lo, _) = self {
+      if lo.has_and_or_between() {
+        return true;
+      }
     }
+    self.kids().iter().any(|k| k.between_unsafe())
+  }
+  /// Only constructs of the operator skeleton (and no interval end spelled `]…[`)?
+  fn plain_spelling(&self) -> bool {
+    !matches!(self, T::Range(Bra::Rev, ..) | T::Range(_, _, _, Bra::Rev)) && self.kids().iter().all(|k| k.plain_spelling())
   }
   fn kind(&self) -> String {
     match self {
@@ -291,6 +588,17 @@ impl T {
       T::Path(..) => "path".into(),
       T::Filter(..) => "filter".into(),
       T::Call(..) => "call".into(),
+      T::CallNamed(..) => "call-named".into(),
+      T::InList(..) => "in-list".into(),
+      T::If(..) => "if".into(),
+      T::For(..) => "for".into(),
+      T::Quant(true, ..) => "every".into(),
+      T::Quant(false, ..) => "some".into(),
+      T::Fn(..) => "function".into(),
+      T::List(..) => "list".into(),
+      T::Ctx(..) => "context".into(),
+      T::Range(..) => "range".into(),
+      T::UTest(..) => "unary-test".into(),
     }
   }
 }
@@ -347,6 +655,19 @@ fn tk_of(s: &Sexp) -> Option<Tk> {
     "rb" => mk("]", false, true, false),
     "dot" => mk(".", false, false, false),
     "comma" => mk(",", false, false, false),
+    "if" => mk("if", true, false, true),
+    "then" => mk("then", true, false, true),
+    "else" => mk("else", true, false, true),
+    "for" => mk("for", true, false, true),
+    "return" => mk("return", true, false, true),
+    "some" => mk("some", true, false, true),
+    "every" => mk("every", true, false, true),
+    "satisfies" => mk("satisfies", true, false, true),
+    "function" => mk("function", true, false, true),
+    "lbr" => mk("{", false, false, false),
+    "rbr" => mk("}", false, true, false),
+    "colon" => mk(":", false, false, false),
+    "dots" => mk("..", false, false, false),
     _ => return None,
   })
 }
@@ -359,32 +680,9 @@ fn toks_of(s: &Sexp) -> Option<Vec<Tk>> {
   l[1..].iter().map(tk_of).collect()
 }
 
-fn toks_sexp(ts: &[Tk]) -> Sexp {
-  Sexp::tagged("toks", ts.iter().map(|t| t.sx.clone()).collect())
-}
-
 /// One space between any two tokens.
 fn render_plain(ts: &[Tk]) -> String {
   ts.iter().map(|t| t.text.as_str()).collect::<Vec<_>>().join(" ")
-}
-
-/// The grouping pairs of a token list: `(` not preceded by an operand end, with its partner.
-fn grouping_pairs(ts: &[Tk]) -> Vec<(usize, usize)> {
-  let mut stack: Vec<(usize, bool)> = vec![];
-  let mut out = vec![];
-  for (i, t) in ts.iter().enumerate() {
-    if t.text == "(" {
-      let call = i > 0 && ts[i - 1].operand_end;
-      stack.push((i, !call));
-    } else if t.text == ")" {
-      if let Some((j, grouping)) = stack.pop() {
-        if grouping {
-          out.push((j, i));
-        }
-      }
-    }
-  }
-  out
 }
 
 /// `( a . b . c`: a grouping parenthesis followed by a path of three names — the generated
@@ -392,13 +690,22 @@ fn grouping_pairs(ts: &[Tk]) -> Vec<(usize, usize)> {
 fn path_quirk(ts: &[Tk]) -> bool {
   let is_name = |t: &Tk| matches!(t.sx.as_list().and_then(|l| l.first()).and_then(|a| a.as_atom()), Some("n"));
   (0..ts.len()).any(|i| {
-    ts[i].text == "("
-      && !(i > 0 && ts[i - 1].operand_end)
-      && i + 4 < ts.len()
-      && is_name(&ts[i + 1])
-      && ts[i + 2].text == "."
-      && is_name(&ts[i + 3])
-      && ts[i + 4].text == "."
+    if !(ts[i].text == "(" || ts[i].text == "[") || (i > 0 && ts[i - 1].operand_end) {
+      return false;
+    }
+    // a path of at least three names that is not the first endpoint of an interval
+    let mut j = i + 1;
+    let mut segs = 0;
+    while j < ts.len() && is_name(&ts[j]) {
+      segs += 1;
+      if j + 1 < ts.len() && ts[j + 1].text == "." {
+        j += 2;
+      } else {
+        j += 1;
+        break;
+      }
+    }
+    segs >= 3 && !(j < ts.len() && ts[j].text == "..")
   })
 }
 
@@ -497,6 +804,21 @@ enum LayoutClass {
   KeywordComment,
   /// `true`, `false` or `null` directly followed by `(`
   LiteralParen,
+  /// a comment between the variable of `for`/`some`/`every` and `in` (finding F32)
+  VarComment,
+  /// a comment between `function` and `(` (finding F33)
+  FunctionComment,
+}
+
+/// The gap after token `i` lies between an iteration (or quantifier) variable and its `in`.
+fn binder_gap(ts: &[Tk], i: usize) -> bool {
+  let is_name = |t: &Tk| matches!(t.sx.as_list().and_then(|l| l.first()).and_then(|a| a.as_atom()), Some("n"));
+  i > 0 && i + 1 < ts.len() && is_name(&ts[i]) && ts[i + 1].text == "in" && ["for", "some", "every", ","].contains(&ts[i - 1].text.as_str())
+}
+
+/// The gap after token `i` lies between `function` and `(`.
+fn function_gap(ts: &[Tk], i: usize) -> bool {
+  ts[i].text == "function"
 }
 
 /// A token-preserving layout: what stands between the tokens (and before the first / after
@@ -510,7 +832,9 @@ fn render_layout(ts: &[Tk], rng: &mut Rng, class: LayoutClass) -> String {
   const COMMENTS: [&str; 5] = ["/* c */", "/**/", "/* a + b and ( */", "// x\n", "// 1 + (\n"];
   let mut out = String::new();
   let special_at = if ts.len() > 1 { rng.below(ts.len() as u64 - 1) as usize } else { 0 };
-  let kw_positions: Vec<usize> = ts.iter().enumerate().filter(|(i, t)| t.keyword && *i + 1 < ts.len()).map(|(i, _)| i).collect();
+  let kw_positions: Vec<usize> = ts.iter().enumerate().filter(|(i, t)| t.keyword && *i + 1 < ts.len() && !function_gap(ts, *i)).map(|(i, _)| i).collect();
+  let var_positions: Vec<usize> = (0..ts.len()).filter(|i| binder_gap(ts, *i)).collect();
+  let var_special = if var_positions.is_empty() { None } else { Some(*rng.pick(&var_positions)) };
   let kw_special = if kw_positions.is_empty() { None } else { Some(*rng.pick(&kw_positions)) };
   // leading
   if rng.chance(1, 3) {
@@ -527,7 +851,14 @@ fn render_layout(ts: &[Tk], rng: &mut Rng, class: LayoutClass) -> String {
     }
     let next = &ts[i + 1];
     let mut gap = String::new();
-    if class == LayoutClass::KeywordComment && kw_special == Some(i) {
+    if binder_gap(ts, i) || function_gap(ts, i) {
+      // white space only — except in the two classes that witness F32 / F33
+      gap.push_str(pick_str(rng, &WS));
+      if (class == LayoutClass::VarComment && var_special == Some(i)) || (class == LayoutClass::FunctionComment && function_gap(ts, i)) {
+        gap.push_str(pick_str(rng, &COMMENTS));
+        gap.push_str(pick_str(rng, &WS));
+      }
+    } else if class == LayoutClass::KeywordComment && kw_special == Some(i) {
       gap.push_str(pick_str(rng, &COMMENTS[..3]));
       gap.push_str(pick_str(rng, &WS));
     } else if class == LayoutClass::DoubleComment && special_at == i {
@@ -543,8 +874,10 @@ fn render_layout(ts: &[Tk], rng: &mut Rng, class: LayoutClass) -> String {
         continue;
       }
       let must = t.keyword || (t.wordy && next.wordy) || (t.text == "/" && (next.text == "/" || next.text == "*")) || (word_literal && next.text == "(");
+      // `- >` would be read as the arrow `->`
+      let must = must || (t.text == "-" && next.text.starts_with('>'));
       // `1 .` + name: keep numbers and dots apart
-      let must = must || (t.text == "." || next.text == ".") && (t.wordy || next.wordy);
+      let must = must || (t.text == "." || next.text == "." || t.text == ".." || next.text == "..") && (t.wordy || next.wordy || t.text == "." || next.text == ".");
       let k = rng.below(6);
       // a comment ends a keyword as well as white space does
       let comment_first = t.keyword && k >= 4 && rng.chance(1, 2);
@@ -662,11 +995,66 @@ enum Kind0 {
   Call1,
   Call2,
   Call0,
+  CallN1,
+  CallN2,
+  InList2,
+  InList3,
+  If,
+  ForS,
+  ForR,
+  For2,
+  Some1,
+  Every2,
+  Fn0,
+  Fn1,
+  Fn2,
+  List0,
+  List1,
+  List2,
+  Ctx0,
+  Ctx1,
+  Ctx2,
+  RangeSq,
+  RangeRound,
+  RangeRev,
+  RangeMixed,
+  UTestNum,
+  UTestQn,
 }
+
+/// The kinds beyond the operator skeleton.
+const NEW_KINDS: [Kind0; 25] = [
+  Kind0::CallN1,
+  Kind0::CallN2,
+  Kind0::InList2,
+  Kind0::InList3,
+  Kind0::If,
+  Kind0::ForS,
+  Kind0::ForR,
+  Kind0::For2,
+  Kind0::Some1,
+  Kind0::Every2,
+  Kind0::Fn0,
+  Kind0::Fn1,
+  Kind0::Fn2,
+  Kind0::List0,
+  Kind0::List1,
+  Kind0::List2,
+  Kind0::Ctx0,
+  Kind0::Ctx1,
+  Kind0::Ctx2,
+  Kind0::RangeSq,
+  Kind0::RangeRound,
+  Kind0::RangeRev,
+  Kind0::RangeMixed,
+  Kind0::UTestNum,
+  Kind0::UTestQn,
+];
 
 fn kinds() -> Vec<Kind0> {
   let mut v: Vec<Kind0> = OPS.iter().map(|o| Kind0::Bin(*o)).collect();
   v.extend([Kind0::Neg, Kind0::Between, Kind0::Inst, Kind0::InstQ, Kind0::Path, Kind0::Filter, Kind0::Call0, Kind0::Call1, Kind0::Call2]);
+  v.extend(NEW_KINDS);
   v
 }
 
@@ -675,6 +1063,11 @@ fn arity(k: Kind0) -> usize {
     Kind0::Bin(_) | Kind0::Filter | Kind0::Call1 => 2,
     Kind0::Neg | Kind0::Inst | Kind0::InstQ | Kind0::Path | Kind0::Call0 => 1,
     Kind0::Between | Kind0::Call2 => 3,
+    Kind0::CallN1 | Kind0::ForS | Kind0::Some1 | Kind0::List2 | Kind0::Ctx2 => 2,
+    Kind0::CallN2 | Kind0::InList2 | Kind0::If | Kind0::ForR | Kind0::Every2 => 3,
+    Kind0::InList3 | Kind0::For2 => 4,
+    Kind0::Fn0 | Kind0::Fn1 | Kind0::Fn2 | Kind0::List1 | Kind0::Ctx1 => 1,
+    Kind0::List0 | Kind0::Ctx0 | Kind0::RangeSq | Kind0::RangeRound | Kind0::RangeRev | Kind0::RangeMixed | Kind0::UTestNum | Kind0::UTestQn => 0,
   }
 }
 
@@ -708,7 +1101,90 @@ fn build(k: Kind0, mut cs: Vec<T>) -> T {
       let a = next();
       T::Call(f, vec![*a, *next()])
     }
+    Kind0::CallN1 => {
+      let f = next();
+      T::CallNamed(f, vec![(6, *next())])
+    }
+    Kind0::CallN2 => {
+      let f = next();
+      let a = next();
+      T::CallNamed(f, vec![(6, *a), (7, *next())])
+    }
+    Kind0::InList2 => {
+      let e = next();
+      let a = next();
+      T::InList(e, vec![*a, *next()])
+    }
+    Kind0::InList3 => {
+      let e = next();
+      let a = next();
+      let b = next();
+      T::InList(e, vec![*a, *b, *next()])
+    }
+    Kind0::If => {
+      let c = next();
+      let a = next();
+      T::If(c, a, next())
+    }
+    Kind0::ForS => {
+      let d = next();
+      T::For(vec![Iter::Single(4, *d)], next())
+    }
+    Kind0::ForR => {
+      let lo = next();
+      let hi = next();
+      T::For(vec![Iter::Range(4, *lo, *hi)], next())
+    }
+    Kind0::For2 => {
+      let d = next();
+      let lo = next();
+      let hi = next();
+      T::For(vec![Iter::Single(4, *d), Iter::Range(5, *lo, *hi)], next())
+    }
+    Kind0::Some1 => {
+      let d = next();
+      T::Quant(false, vec![(4, *d)], next())
+    }
+    Kind0::Every2 => {
+      let d = next();
+      let e = next();
+      T::Quant(true, vec![(4, *d), (5, *e)], next())
+    }
+    Kind0::Fn0 => T::Fn(vec![], next()),
+    Kind0::Fn1 => T::Fn(vec![6], next()),
+    Kind0::Fn2 => T::Fn(vec![6, 7], next()),
+    Kind0::List0 => T::List(vec![]),
+    Kind0::List1 => T::List(vec![*next()]),
+    Kind0::List2 => {
+      let a = next();
+      T::List(vec![*a, *next()])
+    }
+    Kind0::Ctx0 => T::Ctx(vec![]),
+    Kind0::Ctx1 => T::Ctx(vec![(Key::Name(6), *next())]),
+    Kind0::Ctx2 => {
+      let a = next();
+      T::Ctx(vec![(Key::Str(4), *a), (Key::Name(7), *next())])
+    }
+    Kind0::RangeSq => T::Range(Bra::Square, End::Num(1), End::Qn(vec![1]), Bra::Square),
+    Kind0::RangeRound => T::Range(Bra::Round, End::Qn(vec![0, 1]), End::Num(2), Bra::Round),
+    Kind0::RangeRev => T::Range(Bra::Rev, End::Num(1), End::Num(2), Bra::Rev),
+    Kind0::RangeMixed => T::Range(Bra::Round, End::Lit(3), End::Qn(vec![2, 3]), Bra::Square),
+    Kind0::UTestNum => T::UTest(Cmp::Lt, End::Num(5)),
+    Kind0::UTestQn => T::UTest(Cmp::Ge, End::Qn(vec![0, 1])),
   }
+}
+
+fn random_end(rng: &mut Rng) -> End {
+  match rng.below(4) {
+    0 => End::Num(rng.below(10) as usize),
+    // simple literals only: `null` (2) is no endpoint
+    1 => End::Lit([0usize, 1, 3, 4, 5][rng.below(5) as usize]),
+    _ => End::Qn((0..1 + rng.below(3)).map(|_| rng.below(8) as usize).collect()),
+  }
+}
+
+fn random_bra(rng: &mut Rng) -> Bra {
+  [Bra::Round, Bra::Rev, Bra::Square][rng.below(3) as usize]
 }
 
 /// Leaves in a fixed rotation so that every operand is recognisable in a report.
@@ -733,6 +1209,9 @@ fn atoms_node(k: Kind0, lv: &mut Leaves) -> T {
 fn all_pairs() -> Vec<T> {
   let mut out = vec![];
   for p in kinds() {
+    if arity(p) == 0 {
+      out.push(build(p, vec![]));
+    }
     for pos in 0..arity(p) {
       for c in kinds() {
         let mut lv = Leaves(0);
@@ -806,6 +1285,8 @@ fn random_tree(rng: &mut Rng, depth: u32) -> T {
       T::Inst(e, 8 + rng.below(2) as usize, (0..n).map(|_| rng.below(8) as usize).collect())
     }
     T::Path(e, _) => T::Path(e, rng.below(8) as usize),
+    T::Range(..) => T::Range(random_bra(rng), random_end(rng), random_end(rng), random_bra(rng)),
+    T::UTest(..) => T::UTest([Cmp::Lt, Cmp::Le, Cmp::Gt, Cmp::Ge][rng.below(4) as usize], random_end(rng)),
     t => t,
   }
 }
@@ -1422,7 +1903,7 @@ pub fn run(cfg: &Cfg) -> Report {
   }
   let mut rep = Report::new(
     "C06",
-    "a case is one (tree, rendering) or (escape form, code point) pair. Trees: every (parent position, child kind) pair of the operator skeleton (14 binary operators, unary minus, between, instance of, path, filter, invocation with 0-2 arguments) — and every triple in the thorough tier — plus random skeleton trees and random trees of the whole expression language; renderings: Ref.print full, Ref.print minimal, minimal with one needed pair of parentheses removed, random token-preserving layouts. A tree case is non-trivial when the tree has at least two operators (depth >= 2); an escape case when the code point is outside ASCII; distinct by rendered text.",
+    "a case is one (tree, rendering) or (escape form, code point) pair. Trees: every (parent position, child kind) pair over 48 node kinds (14 binary operators, unary minus, between, instance of, path, filter, invocation with 0-2 positional or 1-2 named arguments, in-lists, if, for with list/range domains and one or two contexts, some, every, function definitions with 0-2 parameters, lists and contexts with 0-2 entries, intervals in four spellings, unary tests) — and every triple in the thorough tier — plus random trees of that language and random trees with typed parameters/external bodies/generic types; renderings: Ref.print full, Ref.print minimal, every member of Ref.drops minimal (one needed pair of parentheses removed at any depth), random token-preserving layouts. A tree case is non-trivial when the tree has at least two operators (depth >= 2); an escape case when the code point is outside ASCII; distinct by rendered text.",
   );
   let mut model = Model::start(&cfg.driver);
   let mut rng = Rng::new(cfg.seed);
@@ -1472,7 +1953,7 @@ pub fn run(cfg: &Cfg) -> Report {
     }
   } else {
     // a slice of the triples in the quick tier: one operator per level
-    let ks = [Kind0::Bin(Op::Or), Kind0::Bin(Op::And), Kind0::Bin(Op::Lt), Kind0::Bin(Op::In), Kind0::Bin(Op::Sub), Kind0::Bin(Op::Div), Kind0::Bin(Op::Exp), Kind0::Neg, Kind0::Between, Kind0::Inst, Kind0::Path, Kind0::Call1];
+    let ks = [Kind0::Bin(Op::Or), Kind0::Bin(Op::And), Kind0::Bin(Op::Lt), Kind0::Bin(Op::In), Kind0::Bin(Op::Sub), Kind0::Bin(Op::Div), Kind0::Bin(Op::Exp), Kind0::Neg, Kind0::Between, Kind0::Inst, Kind0::Path, Kind0::Call1, Kind0::If, Kind0::ForS, Kind0::Fn1, Kind0::InList2, Kind0::List1];
     let triples: Vec<T> = all_triples(&ks).into_iter().filter(|t| t.depth() >= 2).collect();
     let keep: Vec<T> = triples.into_iter().enumerate().filter(|(i, _)| i % 3 == (cfg.seed % 3) as usize).map(|(_, t)| t).collect();
     rep.extra.insert("operator_triples".into(), json!(keep.len()));
@@ -1496,7 +1977,7 @@ pub fn run(cfg: &Cfg) -> Report {
 
   // second round: the minimal rendering with one needed pair removed; layouts
   let mut drop_reqs: Vec<String> = vec![];
-  let mut drop_cases: Vec<(usize, Vec<Tk>)> = vec![];
+  let mut drop_cases: Vec<usize> = vec![];
   let mut layout_jobs: Vec<(usize, Vec<Tk>, Result<AstNode, String>)> = vec![];
 
   for (i, ((c, req), ans)) in all.iter().zip(reqs.iter()).zip(answers.iter()).enumerate() {
@@ -1528,7 +2009,7 @@ pub fn run(cfg: &Cfg) -> Report {
       );
     }
     // the harness' own printer (used for the whole expression language) follows the same rule
-    {
+    if c.tree.plain_spelling() {
       let p = Printer { lv: &levels, full: c.mode == "full" };
       let mine: Vec<String> = text_tokens(&p.pr(&expected)).into_iter().filter(|t| t != "\u{1}").collect();
       if mine != text_tokens(&text) {
@@ -1555,14 +2036,10 @@ pub fn run(cfg: &Cfg) -> Report {
     if rep.samples.len() < 6 && c.tree.depth() >= 2 && c.mode == "minimal" && i % 7 == 0 {
       rep.sample(json!({"request": req, "text": text, "implementation": show(&im), "model": ans}));
     }
-    if c.mode == "minimal" {
-      for (a, b) in grouping_pairs(&toks) {
-        let mut t2 = toks.clone();
-        t2.remove(b);
-        t2.remove(a);
-        drop_reqs.push(format!("(c06 parse {})", toks_sexp(&t2)));
-        drop_cases.push((i, t2));
-      }
+    if c.mode == "minimal" && toks.iter().any(|t| t.text == "(") {
+      // every rendering with one pair of parentheses the minimal printer writes (at any depth) left out
+      drop_reqs.push(format!("(c06 drops minimal {})", c.tree.sexp()));
+      drop_cases.push(i);
     }
     // layouts: a share of the cases
     let share = if c.family == "random" { 4 } else { 2 };
@@ -1573,32 +2050,48 @@ pub fn run(cfg: &Cfg) -> Report {
 
   // ---------------------------------------------------------------- needed parentheses removed
   let drop_answers = model.ask_batch(&drop_reqs);
-  for (((i, toks), req), ans) in drop_cases.iter().zip(drop_reqs.iter()).zip(drop_answers.iter()) {
+  for ((i, req), ans) in drop_cases.iter().zip(drop_reqs.iter()).zip(drop_answers.iter()) {
     let c = &all[*i];
     let parsed = Sexp::parse(ans);
-    let l = parsed.as_ref().and_then(|s| s.as_list());
-    let got = l.and_then(|l| if l.len() == 3 { Some((model_result(&l[1]), model_result(&l[2]))) } else { None });
-    let (m_parse, m_surface) = match got {
-      Some((Some(p), Some(s))) => (p, s),
-      _ => {
+    let variants: Option<Vec<(Vec<Tk>, Option<AstNode>, Option<AstNode>)>> = parsed.as_ref().and_then(|s| s.as_list()).and_then(|l| {
+      if l.first()?.as_atom()? != "d" {
+        return None;
+      }
+      l[1..]
+        .iter()
+        .map(|v| {
+          let v = v.as_list()?;
+          if v.len() != 3 {
+            return None;
+          }
+          Some((toks_of(&v[0])?, model_result(&v[1])?, model_result(&v[2])?))
+        })
+        .collect()
+    });
+    let variants = match variants {
+      Some(v) => v,
+      None => {
         rep.disagree(Kind::ImplVsModel, "paren-removed", "driver-error", req, "", ans);
         continue;
       }
     };
-    let text = render_plain(toks);
     let expected = c.tree.ast();
-    rep.case(&text, c.tree.depth() >= 2);
-    rep.hit("paren-removed");
-    if m_parse.as_ref() == Some(&expected) {
-      rep.disagree(Kind::ImplVsModel, "paren-removed", "Ref.parse gives the same tree without a pair that needsParens demands", &text, &show_model(&m_parse), "another tree or no parse");
-    }
-    let im = run_impl(&text);
-    rep.hit(if im.is_ok() { "paren-removed:another-tree" } else { "paren-removed:rejected" });
-    if !same(&im, &m_surface) {
-      rep.disagree(Kind::ImplVsModel, "paren-removed", "parse_expression differs from Ref.parseSurface (needed pair removed)", &text, &show(&im), &show_model(&m_surface));
-    }
-    if im.as_ref().ok() == Some(&expected) {
-      rep.disagree(Kind::ImplVsSpec, "paren-removed", "removing a needed pair of parentheses does not change the tree", &text, &show(&im), "another tree or a syntax error");
+    for (toks, m_parse, m_surface) in variants {
+      let text = render_plain(&toks);
+      rep.case(&text, c.tree.depth() >= 2);
+      rep.hit("paren-removed");
+      rep.hit(&format!("paren-removed:root:{}", c.tree.kind()));
+      if m_parse.as_ref() == Some(&expected) {
+        rep.disagree(Kind::ImplVsModel, "paren-removed", "Ref.parse gives the same tree without a pair that needsParens demands", &text, &show_model(&m_parse), "another tree or no parse");
+      }
+      let im = run_impl(&text);
+      rep.hit(if im.is_ok() { "paren-removed:another-tree" } else { "paren-removed:rejected" });
+      if !same(&im, &m_surface) {
+        rep.disagree(Kind::ImplVsModel, "paren-removed", "parse_expression differs from Ref.parseSurface (needed pair removed)", &text, &show(&im), &show_model(&m_surface));
+      }
+      if im.as_ref().ok() == Some(&expected) {
+        rep.disagree(Kind::ImplVsSpec, "paren-removed", "removing a needed pair of parentheses does not change the tree", &text, &show(&im), "another tree or a syntax error");
+      }
     }
   }
 
@@ -1610,6 +2103,14 @@ pub fn run(cfg: &Cfg) -> Report {
     ("a and/**/ b", "a and b", SIG_KEYWORD_COMMENT),
     ("a in// x\n b", "a in b", SIG_KEYWORD_COMMENT),
     ("null(1)", "null (1)", SIG_LITERAL_PAREN),
+    ("for k /* c */ in b return k", "for k in b return k", SIG_VAR_COMMENT),
+    ("some k // c\n in b satisfies k", "some k in b satisfies k", SIG_VAR_COMMENT),
+    ("function /* c */ ( a ) a", "function ( a ) a", SIG_FUNCTION_COMMENT),
+    ("for /* c */ k in /* c */ b return /* c */ k", "for k in b return k", "layout changes the tree"),
+    ("if/**/a then/**/b else/**/c", "if a then b else c", "layout changes the tree"),
+    ("{/**/a/**/:/**/1/**/}", "{ a : 1 }", "layout changes the tree"),
+    ("a(/**/p/**/:/**/1/**/)", "a ( p : 1 )", "layout changes the tree"),
+    ("function\n(\ta\u{2003},/**/b // x\n) a", "function ( a , b ) a", "layout changes the tree"),
     ("a /* x */ and // y\n b", "a and b", "layout changes the tree"),
     ("\t( a\n+ b ) /* ) */ * // (\n c", "( a + b ) * c", "layout changes the tree"),
     ("a\u{00A0}between\u{2003}b\r\nand c", "a between b and c", "layout changes the tree"),
@@ -1625,13 +2126,17 @@ pub fn run(cfg: &Cfg) -> Report {
   for (k, (i, toks, base)) in layout_jobs.iter().enumerate() {
     let c = &all[*i];
     let lit_paren = toks.windows(2).any(|w| (w[0].text == "true" || w[0].text == "false" || w[0].text == "null") && w[1].text == "(");
+    let has_var = (0..toks.len()).any(|j| binder_gap(toks, j));
+    let has_function = toks.iter().any(|t| t.text == "function");
     let class = match k % 10 {
       8 => LayoutClass::DoubleComment,
       9 => LayoutClass::KeywordComment,
       7 if lit_paren => LayoutClass::LiteralParen,
+      6 if has_var && k % 20 == 6 => LayoutClass::VarComment,
+      5 if has_function && k % 20 == 5 => LayoutClass::FunctionComment,
       _ => LayoutClass::Clean,
     };
-    if class == LayoutClass::KeywordComment && !toks.iter().enumerate().any(|(j, t)| t.keyword && j + 1 < toks.len()) {
+    if class == LayoutClass::KeywordComment && !toks.iter().enumerate().any(|(j, t)| t.keyword && j + 1 < toks.len() && t.text != "function") {
       continue;
     }
     if class == LayoutClass::DoubleComment && toks.len() < 2 {
@@ -1652,6 +2157,8 @@ pub fn run(cfg: &Cfg) -> Report {
         LayoutClass::DoubleComment => SIG_TWO_COMMENTS,
         LayoutClass::KeywordComment => SIG_KEYWORD_COMMENT,
         LayoutClass::LiteralParen => SIG_LITERAL_PAREN,
+        LayoutClass::VarComment => SIG_VAR_COMMENT,
+        LayoutClass::FunctionComment => SIG_FUNCTION_COMMENT,
       };
       rep.disagree(Kind::ImplVsSpec, "layout", sig, &text, &show(&im), &show(base));
     }
